@@ -131,6 +131,71 @@ def load_prop(pid):
     return importlib.import_module('fxpverif.props.%s' % pid.lower())
 
 
+ALL_PROPS = ['C%02d' % i for i in range(1, 21)]
+
+
+class ForeignCtx(object):
+    """what the workload of ANOTHER property sees when it is borrowed as one more source of events for this property's judges:
+    the real monitor and seeded randomness, but verdict sinks that do nothing - only this property's judges (which hold the real
+    context) decide; relational checks which the foreign workload performs itself belong to the foreign property and are dropped."""
+
+    def __init__(self, real, foreign_pid):
+        self.__dict__['_real'] = real
+        self.__dict__['_pid'] = foreign_pid
+        self.prop = foreign_pid
+        self.tier = 'quick'
+        self.seed = real.seed
+        self.shard = real.shard
+        self.nshards = real.nshards
+        self.mon = real.mon
+        self.case = None
+        self.notes = collections.Counter()
+        self.skipped = collections.Counter()
+        self.floor = collections.Counter()
+        self.samples = []
+        self.violations = []
+        self.keys = set()
+        self.allkeys = set()
+        self.evaluations = 0
+        self.elements = 0
+
+    def judged(self, *a, **k):
+        pass
+
+    def floor_hit(self, *a, **k):
+        pass
+
+    def violation(self, *a, **k):
+        self._real.notes['foreign_workload_own_relational_verdicts_dropped'] += 1
+
+    def skip(self, *a, **k):
+        pass
+
+    def cross_observation(self, *a, **k):
+        pass
+
+    def want_sample(self):
+        return False
+
+    def rng_for(self, *parts):
+        return random.Random(repr((self._real.seed, self._real.prop, 'foreign', self._pid) + parts))
+
+
+def run_foreign(case, ctx, cache={}):
+    """run one case of another property's (quick) workload under this property's judges"""
+    fpid = case['prop']
+    if fpid not in cache:
+        cache[fpid] = (load_prop(fpid), ForeignCtx(ctx, fpid))
+    fprop, fctx = cache[fpid]
+    fctx.case = case['case']
+    before = ctx.evaluations
+    try:
+        fprop.run_case(case['case'], fctx)
+    except Exception as e:
+        ctx.notes['foreign_case_exception:%s:%s' % (fpid, type(e).__name__)] += 1
+    ctx.notes['foreign_events_judged:%s' % fpid] += ctx.evaluations - before
+
+
 def run_repo_tests(case, ctx):
     """run one of the repository's test files in-process, under the installed monitor and judges"""
     import contextlib
@@ -181,6 +246,17 @@ def run_shard(pid, tier, seed, shard, nshards, out, only_case=None):
                         for fn in sorted(os.listdir(tdir)):
                             if fn.startswith('test_') and fn.endswith('.py') and fn != 'test_performace.py':
                                 yield {'k': '__repotests__', 'file': fn}
+                # thorough tier: the quick workloads of all OTHER properties are further sources of events for this property's judges
+                if tier == 'thorough' and getattr(prop, 'FOREIGN_WORKLOADS', True) and os.environ.get('FXPVERIF_NO_FOREIGN') != '1':
+                    for fpid in ALL_PROPS:
+                        if fpid == pid:
+                            continue
+                        try:
+                            fprop = load_prop(fpid)
+                        except Exception:
+                            continue
+                        for c in fprop.cases('quick', seed):
+                            yield {'k': '__foreign__', 'prop': fpid, 'case': c}
             cases = (c for i, c in enumerate(all_cases()) if i % nshards == shard)
         budget = getattr(prop, 'SHARD_BUDGET_S', {}).get(tier)
         truncated = 0
@@ -194,6 +270,8 @@ def run_shard(pid, tier, seed, shard, nshards, out, only_case=None):
             try:
                 if isinstance(case, dict) and case.get('k') == '__repotests__':
                     run_repo_tests(case, ctx)
+                elif isinstance(case, dict) and case.get('k') == '__foreign__':
+                    run_foreign(case, ctx)
                 else:
                     prop.run_case(case, ctx)
             except Exception as e:
